@@ -57,6 +57,9 @@ package proxy
 //@ // scheme of the client's connection when the client sent neither X-Forwarded-Proto nor Forwarded
 //@ spec fun connScheme(r *http.Request) string = hget(r.Header, "Upgrade") == "websocket" ? (r.TLS != nil ? "wss" : "ws") : (r.TLS != nil ? "https" : "http")
 //@
+//@ // the value of a parameter: the text up to the next ';'
+//@ spec fun fwdProto(rest string) string = indexByte(rest, ';') >= 0 ? rest[:indexByte(rest, ';')] : rest
+//@
 //@ func scheme
 //@   props C08
 //@   requires r != nil
@@ -65,6 +68,9 @@ package proxy
 //@   ensures hget(r.Header, "X-Forwarded-Proto") == "" && hget(r.Header, "Forwarded") == "" ==> result == connScheme(r)
 //@   ensures hget(r.Header, "X-Forwarded-Proto") != "" && hget(r.Header, "Forwarded") != "" ==> result == connScheme(r)
 //@   ensures hget(r.Header, "X-Forwarded-Proto") != "" && hget(r.Header, "Forwarded") == "" ==> result == hget(r.Header, "X-Forwarded-Proto")
+//@   // only Forwarded is present: its proto= parameter (up to the next ';') if it has one, otherwise the connection decides
+//@   ensures hget(r.Header, "X-Forwarded-Proto") == "" && hget(r.Header, "Forwarded") != "" && strIndex(hget(r.Header, "Forwarded"), "proto=") < 0 ==> result == connScheme(r)
+//@   ensures hget(r.Header, "X-Forwarded-Proto") == "" && hget(r.Header, "Forwarded") != "" && strIndex(hget(r.Header, "Forwarded"), "proto=") >= 0 ==> result == fwdProto(hget(r.Header, "Forwarded")[strIndex(hget(r.Header, "Forwarded"), "proto=")+6:])
 //@
 //@ func localPort
 //@   props C08
